@@ -1,4 +1,4 @@
-import PlzVerif.Lemmas.DirBuilder
+import PlzVerif.Lemmas.DirBuilderOps
 import PlzVerif.Generated.C28
 /-!
 C28  Remote action digests are canonical.
@@ -6,7 +6,8 @@ C28  Remote action digests are canonical.
 `Model/DirBuilder.lean` transcribes `dirBuilder.dir` / `walk` (with the one `last` variable shared by the
 three de-duplication loops, as written) and `buildEnv`.  The theorems hold for *any* legal result of Go's
 unstable `sort.Slice` (`IsSort`), any digest function `H`, any tree depth and any number of entries.
-"Consistent duplicates" (`BCons`): two entries of one list with the same name are the same entry.
+"Consistent duplicates" (`BCons`, `ConsOps`): two entries of one list with the same name are the same entry.
+`Lemmas/DirBuilderOps.lean` lifts the result from insertion lists to the operations themselves.
 -/
 namespace PlzVerif.Props.C28
 open PlzVerif.DirBuilder PlzVerif.Generated
@@ -76,6 +77,41 @@ theorem C28_perm_invariant
   unfold walkAs
   cases h1 : walkWith C28.sharedLast sf sd ss H b₁ fuel p <;>
     cases h2 : walkWith C28.sharedLast sf' sd' ss' H b₂ fuel p <;> simp_all [WRel]
+
+/-- The same at the level of the operations the callers perform (`b.Dir(p)`, appending a file, a directory
+    node with a digest, a symlink to `b.Dir(p)`): inserting a consistent set of inputs in any order gives the
+    same root message and digest, the same message at every directory, and uploads the same messages.
+    `OpsOK`: directory nodes carry their digest; `NoOverlap`: such a node does not name a directory that is also
+    built up from entries; `ConsOps`: in one directory, entries of one kind with the same name are identical. -/
+theorem C28_insertion_order_irrelevant
+    (hf : IsSort (·.name) sf) (hd : IsSort (·.name) sd) (hs : IsSort (·.name) ss)
+    (hf' : IsSort (·.name) sf') (hd' : IsSort (·.name) sd') (hs' : IsSort (·.name) ss')
+    (H : Dir → Dg) (ops₁ ops₂ : List Op) (p : ops₁.Perm ops₂)
+    (hok : OpsOK ops₁) (hno : NoOverlap ops₁) (hc : ConsOps ops₁) (fuel : Nat) (q : Path) :
+    match walkAs sf sd ss H (applyOps ops₁) fuel q, walkAs sf' sd' ss' H (applyOps ops₂) fuel q with
+    | some w₁, some w₂ => w₁.msg = w₂.msg ∧ H w₁.msg = H w₂.msg ∧ w₁.emitted.Perm w₂.emitted
+    | none, none => True
+    | _, _ => False :=
+  C28_perm_invariant hf hd hs hf' hd' hs' H _ _ (applyOps_perm p hok hno) (applyOps_cons hok hno hc) fuel q
+
+/-- What the builder holds after any list of operations: exactly the root and the prefixes of the named
+    directories; in each, the files / symlinks / digest nodes inserted there, in insertion order, plus one
+    digest-less node per child directory. -/
+theorem C28_builder_contents (ops : List Op) (hok : OpsOK ops) (hno : NoOverlap ops) (q : Path) :
+    (((applyOps ops).get q).isSome = true ↔ KeyOf ops q) ∧
+    ∀ d, (applyOps ops).get q = some d →
+      d.files = filesAt ops q ∧ d.syms = symsAt ops q ∧ digs d = digsAt ops q ∧ (nils d).Nodup ∧
+      ∀ c, c ∈ nils d ↔ KeyOf ops (q ++ [c]) := by
+  have r := applyOps_rel hok hno
+  refine ⟨r.keys q, ?_⟩
+  intro d hd
+  obtain ⟨h1, h2, h3⟩ := r.content q d hd
+  refine ⟨h1, h2, h3, r.inv.nil_nodup q d hd, ?_⟩
+  intro c; rw [r.inv.nil_iff q d hd c, r.keys]
+
+-- non-vacuity: a consistent set with a duplicate, a nested directory and a digest node satisfies the hypotheses
+example : OpsOK [.file [[97]] ⟨[98], "d1", false⟩, .dirNode [] ⟨[120], some "d9"⟩, .file [[97]] ⟨[98], "d1", false⟩] := by
+  intro p n h; simp at h; obtain ⟨_, rfl⟩ := h; rfl
 
 /-- One directory: the canonical message is a function of the *set* of consistent entries per kind. -/
 theorem C28_dir_perm_invariant
